@@ -1,0 +1,267 @@
+//go:build verif
+
+// Contracts, specification functions and lemma harnesses for package asn.
+// This file exists only under the build tag "verif": the regular build and the
+// test suite never see it. The //@ blocks are read by /verif/govc; the Go
+// functions below are specification code (pure, loop-free) that govc executes
+// symbolically exactly like the code under contract.
+
+package asn
+
+// ---- specification prelude -------------------------------------------------
+
+// verif_forall is interpreted by govc as a universal quantifier (it is not executable);
+// verif_forall_range is a bounded quantifier and is executable, so that the replay harness can
+// evaluate post-conditions on the real function's results.
+func verif_forall[T any](f func(T) bool) bool { return true }
+func verif_forall_range(lo, hi int, f func(int) bool) bool {
+	for k := lo; k < hi; k++ {
+		if !f(k) {
+			return false
+		}
+	}
+	return true
+}
+
+// ---- X.690 specification functions (written from the standard, closed form) --
+
+// specFits: x fits k two's-complement octets (1 <= k <= 8)
+func specFits(x int64, k int) bool {
+	if k >= 8 {
+		return true
+	}
+	lim := int64(1) << (8*uint(k) - 1)
+	return -lim <= x && x < lim
+}
+
+// specIntLen: X.690 8.3.2 - minimal number of content octets of an INTEGER
+func specIntLen(x int64) int {
+	switch {
+	case specFits(x, 1):
+		return 1
+	case specFits(x, 2):
+		return 2
+	case specFits(x, 3):
+		return 3
+	case specFits(x, 4):
+		return 4
+	case specFits(x, 5):
+		return 5
+	case specFits(x, 6):
+		return 6
+	case specFits(x, 7):
+		return 7
+	}
+	return 8
+}
+
+// specIntByte: k-th content octet (most significant first) of an n-octet two's-complement INTEGER
+func specIntByte(x int64, n, k int) byte { return byte(x >> (8 * uint(n-1-k))) }
+
+// ---- contracts ---------------------------------------------------------------
+
+//@ func (int64Encoder).Len [C04 C05]
+//@   ensures result == specIntLen(int64(i))
+//@   loop 0: invariant 1 <= n && n <= 8 && i == i0 >> (8*uint(n-1))
+//@   loop 0: invariant n > 1 ==> !specFits(int64(i0), n-1)
+//@   loop 0: invariant i0 < 0 ==> n == 1
+//@   loop 1: invariant 1 <= n && n <= 8 && i == i0 >> (8*uint(n-1)) && i <= 127
+//@   loop 1: invariant n > 1 ==> !specFits(int64(i0), n-1)
+
+//@ func (int64Encoder).Encode [C04 C05]
+//@   requires len(dst) >= specIntLen(int64(i))
+//@   ensures forall k int :: 0 <= k && k < specIntLen(int64(i)) ==> dst[k] == specIntByte(int64(i), specIntLen(int64(i)), k)
+//@   modifies elems(dst[:specIntLen(int64(i))])
+//@   loop 0: invariant 0 <= j && j <= n && n == specIntLen(int64(i0)) && i == i0 >> (8*uint(j))
+//@   loop 0: invariant forall k int :: n-j <= k && k < n ==> dst[k] == specIntByte(int64(i0), n, k)
+//@   loop 0: invariant forall k int :: n <= k && k < len(dst) ==> dst[k] == old(dst[k])
+
+//@ func (byteEncoder).Len [C04]
+//@   ensures result == 1
+//@ func (byteEncoder).Encode [C04]
+//@   requires len(dst) >= 1
+//@   ensures dst[0] == byte(b)
+//@   modifies elems(dst[:1])
+
+//@ func (bytesEncoder).Len [C04]
+//@   ensures result == len(b)
+//@ func (bytesEncoder).Encode [C04]
+//@   requires len(dst) >= len(b)
+//@   ensures forall k int :: 0 <= k && k < len(b) ==> dst[k] == old(b[k])
+//@   modifies elems(dst[:len(b)])
+
+//@ func (stringEncoder).Len [C04]
+//@   ensures result == len(s)
+//@ func (stringEncoder).Encode [C04]
+//@   requires len(dst) >= len(s)
+//@   ensures forall k int :: 0 <= k && k < len(s) ==> dst[k] == s[k]
+//@   modifies elems(dst[:len(s)])
+
+// ---- identifier and length octets (X.690 8.1.2, 8.1.3) ---------------------------
+
+// specBase128Len: minimal number of 7-bit groups needed for t
+func specBase128Len(t uint64) int {
+	switch {
+	case t < 1<<7:
+		return 1
+	case t < 1<<14:
+		return 2
+	case t < 1<<21:
+		return 3
+	case t < 1<<28:
+		return 4
+	case t < 1<<35:
+		return 5
+	case t < 1<<42:
+		return 6
+	case t < 1<<49:
+		return 7
+	case t < 1<<56:
+		return 8
+	case t < 1<<63:
+		return 9
+	}
+	return 10
+}
+
+// specIdLen: number of identifier octets
+func specIdLen(tag uint64) int {
+	if tag <= 30 {
+		return 1
+	}
+	return 1 + specBase128Len(tag)
+}
+
+// specIdByte: k-th identifier octet
+func specIdByte(class int, constructed bool, tag uint64, k int) byte {
+	first := byte(class) << 6
+	if constructed {
+		first |= 0x20
+	}
+	if tag <= 30 {
+		return first | byte(tag)
+	}
+	if k == 0 {
+		return first | 0x1f
+	}
+	n := specBase128Len(tag)
+	d := byte(tag>>(7*uint(n-k))) & 0x7f
+	if k < n {
+		d |= 0x80
+	}
+	return d
+}
+
+// specBase256Len: minimal number of octets for a non-negative length
+func specBase256Len(l int64) int {
+	switch {
+	case l < 1<<8:
+		return 1
+	case l < 1<<16:
+		return 2
+	case l < 1<<24:
+		return 3
+	case l < 1<<32:
+		return 4
+	case l < 1<<40:
+		return 5
+	case l < 1<<48:
+		return 6
+	case l < 1<<56:
+		return 7
+	}
+	return 8
+}
+
+// specLenLen: number of length octets (definite form, minimal)
+func specLenLen(l int64) int {
+	if l <= 127 {
+		return 1
+	}
+	return 1 + specBase256Len(l)
+}
+
+// specLenByte: k-th length octet
+func specLenByte(l int64, k int) byte {
+	if l <= 127 {
+		return byte(l)
+	}
+	n := specBase256Len(l)
+	if k == 0 {
+		return 0x80 | byte(n)
+	}
+	return byte(l >> (8 * uint(n-k)))
+}
+
+//@ func appendTagAndLen [C04 C05]
+//@   requires len(dst) == 0 && 0 <= t.class && t.class <= 3 && t.len >= 0
+//@   ensures len(result) == specIdLen(t.tagNumber) + specLenLen(t.len)
+//@   ensures forall k int in 0..11 :: k < specIdLen(t.tagNumber) ==> result[k] == specIdByte(t.class, t.constructed, t.tagNumber, k)
+//@   ensures forall k int in 0..9 :: k < specLenLen(t.len) ==> result[specIdLen(t.tagNumber)+k] == specLenByte(t.len, k)
+//@   modifies elems(dst[:cap(dst)])
+//@   linear dst
+//@   assert "if t.len <= 127": len(dst) == specIdLen(t0.tagNumber) && offset == len(dst) && t.len == t0.len
+//@   assert "if t.len <= 127": forall k int in 0..11 :: k < specIdLen(t0.tagNumber) ==> dst[k] == specIdByte(t0.class, t0.constructed, t0.tagNumber, k)
+//@   loop 0: invariant 1 <= n && n <= 10 && tmp == t.tagNumber >> (7*uint(n-1))
+//@   loop 0: invariant n > 1 ==> t.tagNumber >> (7*uint(n-2)) > 127
+//@   loop 1: invariant 0 <= i && i <= n && 1 <= n && n <= 10 && offset == 1 && len(dst) == 1+n && n == specBase128Len(t0.tagNumber) && t0.tagNumber > 30
+//@   loop 1: invariant t.tagNumber == t0.tagNumber >> (7*uint(i)) && t.class == t0.class && t.constructed == t0.constructed && t.len == t0.len
+//@   loop 1: invariant dst[0] == specIdByte(t0.class, t0.constructed, t0.tagNumber, 0)
+//@   loop 1: invariant forall k int in 0..10 :: n-i <= k && k < n ==> dst[1+k] == byte(t0.tagNumber >> (7*uint(n-1-k))) | 0x80
+//@   loop 2: invariant 1 <= n && n <= 8 && tmp == t.len >> (8*uint(n-1)) && t.len > 127
+//@   loop 2: invariant n > 1 ==> t.len >> (8*uint(n-2)) > 255
+//@   loop 3: invariant 0 <= i && i <= n && 1 <= n && n <= 8 && offset == specIdLen(t0.tagNumber)+1 && len(dst) == offset+n && n == specBase256Len(t0.len) && t0.len > 127
+//@   loop 3: invariant t.len == t0.len >> (8*uint(i))
+//@   loop 3: invariant forall k int in 0..11 :: k < specIdLen(t0.tagNumber) ==> dst[k] == specIdByte(t0.class, t0.constructed, t0.tagNumber, k)
+//@   loop 3: invariant dst[offset-1] == 0x80 | byte(n)
+//@   loop 3: invariant forall k int in 0..8 :: n-i <= k && k < n ==> dst[offset+k] == byte(t0.len >> (8*uint(n-1-k)))
+
+// ---- decoder primitives -----------------------------------------------------------
+
+// specBE: big-endian unsigned value of the first n (<= 8) octets
+func specBE(bytes []byte, n int) int64 {
+	var r int64
+	if n > 0 {
+		r = int64(bytes[0])
+	}
+	if n > 1 {
+		r = r<<8 | int64(bytes[1])
+	}
+	if n > 2 {
+		r = r<<8 | int64(bytes[2])
+	}
+	if n > 3 {
+		r = r<<8 | int64(bytes[3])
+	}
+	if n > 4 {
+		r = r<<8 | int64(bytes[4])
+	}
+	if n > 5 {
+		r = r<<8 | int64(bytes[5])
+	}
+	if n > 6 {
+		r = r<<8 | int64(bytes[6])
+	}
+	if n > 7 {
+		r = r<<8 | int64(bytes[7])
+	}
+	return r
+}
+
+//@ func parseInt64 [C05 C16]
+//@   strict
+//@   ensures len(bytes) > 8 ==> e != nil
+//@   ensures len(bytes) <= 8 ==> e == nil && r == specBE(bytes, len(bytes))
+//@   loop 0: invariant 0 <= ITER && ITER <= len(bytes) && len(bytes) <= 8 && r == specBE(bytes, ITER) && e == nil
+
+//@ func parseBool [C05 C16]
+//@   ensures result1 == nil && result0 == (b != 0)
+
+//@ func parseBitString [C05 C16]
+//@   strict
+//@   ensures e == nil
+
+//@ func parseTagAndLength [C05 C16]
+//@   strict
+//@   ensures e == nil ==> 2 <= off && off <= len(bytes) && r.len >= 0
+//@   loop 0: invariant 1 <= off && off <= len(bytes)
